@@ -719,6 +719,26 @@ def rule_r12(repo, run):
               wp.loc(pr))
 
 
+def rule_r13(repo, run, helpers):
+    R = run.rule("C06.R13", "a conversion helper does not release what it was lent: an object the helper did not create or "
+                            "receive from a call of its own (that is, one of its `PyObject *` parameters, a borrowed reference) "
+                            "is never Py_DECREF'ed by it")
+    n = 0
+    for key, h in sorted(helpers.c.items()):
+        for kk, src in tables.helper_sources(h):
+            flat = re.sub(r"\s+", " ", src)
+            for m in re.finditer(r"Py_X?DECREF\(\s*([A-Za-z_]\w*)\s*\)", flat):
+                name = m.group(1)
+                n += 1
+                # the helper owns what it assigned itself: `name = f(...)`, `PyObject *name = ...`, `T *name;` + later assignment
+                own = re.search(r"(?<![\w.>])%s\s*=[^=]" % re.escape(name), flat) is not None
+                run.check(R, "whelpers.CHelpers[%s].%s:borrowed[%s]" % (key, kk, name), own,
+                          "the helper calls %s, but never assigns `%s`: it is a parameter, i.e. the caller's (borrowed) reference "
+                          "- every failed conversion takes one reference away from the caller's object (crash when it reaches "
+                          "zero)" % (m.group(0), name), "shroud/whelpers.py")
+    run.floor(R, "Py_DECREF sites in helpers", n, 10)
+
+
 def run(repo, run, tier):
     tables.check_model_assumptions(repo)
     table = tables.StatementTable(repo, "statements", "fc_statements")
@@ -763,3 +783,4 @@ def run(repo, run, tier):
     rule_r10(repo, run, helpers, table)
     rule_r11(repo, run)
     rule_r12(repo, run)
+    rule_r13(repo, run, helpers)
